@@ -36,7 +36,7 @@ import (
 )
 
 // properties whose generators emit the token views (VERIF_TOKENVIEW=all|none|C01,C05 overrides)
-var tokenViewProps = map[string]bool{"C01": true}
+var tokenViewProps = map[string]bool{"C01": true, "C02": true, "C04": true}
 
 // one world in tokenViewFullEvery is checked with the verifier primitive's observed
 // (key, message, signature) table, which makes the model rebuild the exact signed message
@@ -64,9 +64,29 @@ func tokenViewEnabled() bool {
 	}
 }
 
-type tvPending struct {
-	w    *World
-	full bool
+// a world as it was when World.Coq rendered it (worlds are rebuilt and re-run by some generators, so
+// everything that depends on the world's mutable state is taken at that moment; only the
+// signature observations — the expensive part — are left for flushTokenViews)
+type tvTokSnap struct {
+	link  int
+	bytes []byte
+	tok   string // World.coqToken
+	dlg   delegationLike
+	iss   []byte
+	aud   []byte
+}
+
+type delegationLike interface {
+	Data() ucan.View
+	Issuer() ucan.Principal
+}
+
+type tvSnap struct {
+	id    int
+	full  bool
+	toks  []tvTokSnap
+	keys  []tvKey
+	links []string // rendered (CID bytes, number) pairs
 }
 
 type tvResult struct {
@@ -77,7 +97,7 @@ type tvResult struct {
 	stats  map[string]int
 }
 
-var tvQueue []tvPending
+var tvQueue []*tvSnap
 var tvSeen = map[*World]bool{}
 
 // tokenViewHook is called at the end of World.Coq (all link numbers of the world are assigned).
@@ -86,7 +106,7 @@ func tokenViewHook(w *World) {
 		return
 	}
 	tvSeen[w] = true
-	tvQueue = append(tvQueue, tvPending{w, tokenViewFullEvery > 0 && len(tvQueue)%tokenViewFullEvery == 0})
+	tvQueue = append(tvQueue, tvSnapshot(w, tokenViewFullEvery > 0 && len(tvQueue)%tokenViewFullEvery == 0))
 }
 
 // asVerifier presents a key's verifier under another DID: ucan.VerifySignature then performs
@@ -149,71 +169,91 @@ func coqNList(xs []int) string {
 	return "[" + strings.Join(items, "; ") + "]"
 }
 
-// tokenViewRecord renders every token of the world (full: also the accepted primitive calls).
-func tokenViewRecord(w *World, full bool) *tvResult {
-	res := &tvResult{full: full, stats: map[string]int{}}
-	keys := castKeys(w.Cast)
-	var calls []string
-	var toks []string
+// tvObserve: which keys accept the token's signature — with the key's verifier presented under
+// the token's own issuer DID (raw), and with the key's own did:key verifier (own)
+func tvObserve(d delegationLike, keys []tvKey, calls *[]string, stats map[string]int) (sigkeys, verifs []int) {
+	for _, k := range keys {
+		k := k
+		var raw, own bool
+		if p := recovered(func() {
+			var vf principal.Verifier = k.vf
+			if calls != nil {
+				vf = recVerifier{k.vf, k.id, calls}
+			}
+			raw, _ = ucan.VerifySignature(d.Data(), asVerifier{vf, d.Issuer().DID()})
+			own, _ = ucan.VerifySignature(d.Data(), k.vf)
+		}); p != nil && stats != nil {
+			stats["verify_panics"]++
+		}
+		if raw {
+			sigkeys = append(sigkeys, k.id)
+		}
+		if own {
+			verifs = append(verifs, k.id)
+		}
+	}
+	return
+}
+
+// tvSnapshot takes what depends on the world's state: link numbers, renderings, bytes.
+func tvSnapshot(w *World, full bool) *tvSnap {
+	sn := &tvSnap{id: w.ID, full: full, keys: castKeys(w.Cast)}
 	for _, name := range w.order {
 		b := w.built[name]
 		d := b.Dlg
-		var sigkeys, verifs []int
-		for _, k := range keys {
-			k := k
-			var raw, own bool
-			if p := recovered(func() {
-				var vf principal.Verifier = k.vf
-				if full {
-					vf = recVerifier{k.vf, k.id, &calls}
-				}
-				raw, _ = ucan.VerifySignature(d.Data(), asVerifier{vf, d.Issuer().DID()})
-				own, _ = ucan.VerifySignature(d.Data(), k.vf)
-			}); p != nil {
-				res.stats["verify_panics"]++
-			}
-			if raw {
-				sigkeys = append(sigkeys, k.id)
-			}
-			if own {
-				verifs = append(verifs, k.id)
+		if b.Signer < 0 {
+			// a hand-written block: no construction knowledge, the signer is the observed one
+			sk, _ := tvObserve(d, sn.keys, nil, nil)
+			b.Signer = 0
+			if len(sk) > 0 {
+				b.Signer = sk[0]
 			}
 		}
+		ts := tvTokSnap{link: w.lid(d.Link()), bytes: d.Root().Bytes(), tok: w.coqToken(b), dlg: d}
+		if m := d.Data().Model(); m != nil {
+			ts.iss, ts.aud = m.Iss, m.Aud
+		}
+		sn.toks = append(sn.toks, ts)
+	}
+	for i, s := range w.links {
+		cd, err := cid.Decode(s)
+		if err != nil {
+			continue
+		}
+		sn.links = append(sn.links, fmt.Sprintf("(%s, %d)", hx(cd.Bytes()), i+1))
+	}
+	return sn
+}
+
+// tvFinish observes the signatures and renders the record (run on all CPUs by flushTokenViews).
+func tvFinish(sn *tvSnap) *tvResult {
+	res := &tvResult{full: sn.full, stats: map[string]int{}}
+	var calls []string
+	var callsp *[]string
+	if sn.full {
+		callsp = &calls
+	}
+	var toks []string
+	for _, t := range sn.toks {
+		sigkeys, verifs := tvObserve(t.dlg, sn.keys, callsp, res.stats)
 		if len(sigkeys) > 0 {
 			res.stats["tokens_with_a_verifying_key"]++
 		}
 		if len(sigkeys) > 0 && len(verifs) == 0 {
 			res.stats["tokens_signed_by_another_principal_or_wrapped"]++
 		}
-		if m := d.Data().Model(); m != nil {
-			res.dids = append(res.dids, m.Iss, m.Aud)
-		}
-		if b.Signer < 0 {
-			// a hand-written block: no construction knowledge, the signer is the observed one
-			b.Signer = 0
-			if len(sigkeys) > 0 {
-				b.Signer = sigkeys[0]
-			}
-		}
+		res.dids = append(res.dids, t.iss, t.aud)
 		res.tokens++
 		toks = append(toks, fmt.Sprintf("{| tt_link := %d; tt_bytes := %s;\n    tt_tok := %s;\n    tt_sigkeys := %s; tt_verifs := %s |}",
-			w.lid(d.Link()), hx(d.Root().Bytes()), w.coqToken(b), coqNList(sigkeys), coqNList(verifs)))
+			t.link, hx(t.bytes), t.tok, coqNList(sigkeys), coqNList(verifs)))
 	}
 	var ks []string
-	for _, k := range keys {
+	for _, k := range sn.keys {
 		res.dids = append(res.dids, k.did.Bytes())
 		ks = append(ks, fmt.Sprintf("(%d, %s, %s)", k.id, hx(k.did.Bytes()), hxs(k.alg)))
 	}
-	var ls []string
-	for i, s := range w.links {
-		cd, err := cid.Decode(s)
-		if err != nil {
-			continue
-		}
-		ls = append(ls, fmt.Sprintf("(%s, %d)", hx(cd.Bytes()), i+1))
-	}
 	res.rec = fmt.Sprintf("{| tv_id := %d;\n  tv_links := [%s];\n  tv_keys := [%s];\n  tv_toks := %s;\n  tv_calls := [%s] |}",
-		w.ID, strings.Join(ls, "; "), strings.Join(ks, "; "), coqList(toks), strings.Join(calls, ";\n   "))
+		sn.id, strings.Join(sn.links, "; "), strings.Join(ks, "; "), coqList(toks), strings.Join(calls, ";\n   "))
 	return res
 }
 
@@ -291,7 +331,7 @@ func flushTokenViews(dir, prefix string, shards int) error {
 		go func(i int) {
 			defer wg.Done()
 			defer func() { <-sem }()
-			results[i] = tokenViewRecord(queue[i].w, queue[i].full)
+			results[i] = tvFinish(queue[i])
 		}(i)
 	}
 	wg.Wait()
